@@ -12,6 +12,7 @@ import (
 	"errors"
 	"fmt"
 	"io"
+	"math"
 	"sort"
 	"strconv"
 )
@@ -33,6 +34,8 @@ type Index map[string]Record
 // in the provided io.Reader.
 func NewIndex(fasta io.Reader) (Index, error) {
 	sc := bufio.NewScanner(fasta)
+	// Sequence lines may be of any length (unwrapped FASTA).
+	sc.Buffer(nil, math.MaxInt)
 	sc.Split(func(data []byte, atEOF bool) (advance int, token []byte, err error) {
 		if atEOF && len(data) == 0 {
 			return 0, nil, nil
